@@ -12,4 +12,7 @@ mod kw;
 #[cfg(not(all(feature = "syn", feature = "syn2")))]
 mod validate;
 
+#[cfg(o2o_verif)]
+pub mod verif_shim;
+
 mod tests;
